@@ -428,6 +428,18 @@ def make_jobs(ctx):
         up = float(orr) / float(ir)
         jobs.append({"cfg": c0, "phases": phases, "tones": [0.11, 0.47, 0.93] if up < 40 or not ctx.quick else [0.47],
                      "proto_cap": (4 if up > 20 else 16) if ctx.quick else (40 if up > 20 else 160)})
+    # one linear-phase member of every planner path (plan class of checks/_signal.py cover: which stage kinds with which L / M / interpolation
+    # order, incl. the low-quality single-stage shortcut) is measured at phase settings on both sides of linear, mirror pairs included
+    from checks import _signal as S
+    S.harness()
+    sel, _ = S.cover(rng, ["base"], S.COVER_RATIOS, per_ratio=1 if ctx.quick else 4, members=1, max_period=24 if ctx.quick else 200)
+    for e in sel[: (80 if ctx.quick else 600)]:
+        c0 = dict(e["members"][0])
+        c0["recipe"] = int(c0["recipe"]) & ~0x30
+        a = rng.choice([10, 30, 40, 20])
+        up = float(c0["orr"]) / float(c0["ir"])
+        jobs.append({"cfg": c0, "phases": [50, 25, 75, a, 100 - a] if rng.chance(.5) else [50, 0, 100, a, 100 - a], "tones": [0.47],
+                     "proto_cap": (4 if up > 20 else 24) if ctx.quick else (40 if up > 20 else 200)})
     # the phase chosen by the RECIPE's flags (soxr_quality_spec(recipe | SOXR_MINIMUM_PHASE ...)), alone and combined with the other recipe
     # flag of the same nibble (SOXR_STEEP_FILTER): same comparisons, with a tone close to the end of the pass-band
     for i in range(6 if ctx.quick else 120):
